@@ -8,6 +8,9 @@ Notation F := S754_finite.
 Notation Zr := S754_zero.
 Notation Inf := S754_infinity.
 Notation NaN := S754_nan.
+(** floats travel as primitive-float hex literals (fast to parse); [P] turns them into [spec_float] *)
+Definition P (x : float) : spec_float := Prim2SF x.
+Arguments P x%float.
 
 Definition sf_eqb (a b : spec_float) : bool :=
   match a, b with
